@@ -3,6 +3,7 @@ package main
 import (
 	"fmt"
 	"os"
+	"sort"
 	"strings"
 	"time"
 
@@ -24,7 +25,7 @@ import (
 
 func round5Scenarios() []func() []monFailure {
 	return []func() []monFailure{scenOwnerAfterRolledBackRegistration, scenParamsAfterFailedProposal, scenRecreateOverExpiredStream, scenPartialUnlockWithOtherHolder, scenSignerListWithBlanks,
-		scenRecheckAfterFeeChange, scenReregisterSameMoniker, scenSameBlockCancel, scenManyDenominationsSupply}
+		scenRecheckAfterFeeChange, scenReregisterSameMoniker, scenSameBlockCancel, scenManyDenominationsSupply, scenOnlyRegistryMsgsUnlock}
 }
 
 // C09 / C13: a transaction [register; record on the id it is about to receive; a failing message] is rolled back as a
@@ -523,5 +524,58 @@ func scenManyDenominationsSupply() []monFailure {
 			s.fail("C17", 0, fmt.Sprintf("walking TotalSupply by key with limit %d serves %d of the bank's %d denominations", limit, len(seen), len(bank)))
 		}
 	}
+	return s.failures
+}
+
+// C05: locked eFUND moves only for the fee payer of a transaction with a top-level WRKChain / BEACON register, record or
+// purchase message.  Every OTHER message a locked holder can sign - including the two registry modules' own
+// MsgUpdateParams (authority = the signer itself: it fails at execution, but the ante effects of a failed transaction
+// persist) - must leave locked and spent eFUND exactly as they were; the fee comes out of the liquid balance.
+func scenOnlyRegistryMsgsUnlock() []monFailure {
+	s := &scen{c: newChain(fixedCfg()), name: "only-registry-messages-unlock"}
+	defer s.c.close()
+	c := s.c
+	ek := c.app.EnterpriseKeeper
+	s.blockStart(5 * time.Second)
+	s.tx(4, nundCoins(0), c.mEntRaise(4, "nund", sdk.NewInt(500000)).m)
+	s.tx(0, nundCoins(0), c.mEntDecide(0, 1, 2).m)
+	s.tx(1, nundCoins(0), c.mEntDecide(1, 1, 2).m)
+	s.blockEnd()
+	for i := 0; i < 2; i++ {
+		s.blockStart(5 * time.Second)
+		s.blockEnd()
+	}
+	s.blockStart(5 * time.Second)
+	me := c.addrOf(4)
+	if !ek.GetLockedUndAmountForAccount(c.ctx(), me).Amount.Equal(sdk.NewInt(500000)) {
+		s.blockEnd()
+		return s.failures // set-up did not lock: nothing to observe
+	}
+	self := me.String()
+	msgs := map[string]sdk.Msg{
+		"bank MsgSend":               banktypes.NewMsgSend(me, c.addrOf(0), nundCoins(5)),
+		"beacon MsgUpdateParams":     &bcntypes.MsgUpdateParams{Authority: self, Params: bcntypes.NewParams(1000, 10, 5, "nund", 2, 5)},
+		"wrkchain MsgUpdateParams":   &wrktypes.MsgUpdateParams{Authority: self, Params: wrktypes.NewParams(1000, 10, 5, "nund", 2, 5)},
+		"enterprise MsgUpdateParams": &enttypes.MsgUpdateParams{Authority: self, Params: ek.GetParams(c.ctx())},
+		"stream MsgUpdateParams":     &strtypes.MsgUpdateParams{Authority: self, Params: strtypes.NewParams(sdk.NewDecWithPrec(1, 2))},
+		"stream MsgCreateStream":     c.mStrCreate(4, 1, "nund", sdk.NewInt(6000), 10).m,
+		"enterprise purchase order":  c.mEntRaise(4, "nund", sdk.NewInt(7)).m,
+	}
+	var names []string
+	for n := range msgs {
+		names = append(names, n)
+	}
+	sort.Strings(names)
+	for _, n := range names {
+		lockedBefore := ek.GetLockedUndAmountForAccount(c.ctx(), me).Amount
+		spentBefore := ek.GetSpentEFUNDAmountForAccount(c.ctx(), me).Amount
+		totalBefore := ek.GetTotalLockedUnd(c.ctx()).Amount
+		r := s.tx(4, nundCoins(3000), msgs[n])
+		l, sp, t := ek.GetLockedUndAmountForAccount(c.ctx(), me).Amount, ek.GetSpentEFUNDAmountForAccount(c.ctx(), me).Amount, ek.GetTotalLockedUnd(c.ctx()).Amount
+		if !l.Equal(lockedBefore) || !sp.Equal(spentBefore) || !t.Equal(totalBefore) {
+			s.fail("C05", 0, fmt.Sprintf("a transaction carrying only %s (code %d, fee 3000nund) signed by a holder of locked eFUND changed the books: locked %s -> %s, spent %s -> %s, total locked %s -> %s", n, r.Code, lockedBefore, l, spentBefore, sp, totalBefore, t))
+		}
+	}
+	s.blockEnd()
 	return s.failures
 }
